@@ -7,6 +7,7 @@
   association list); the model on `find` / `del` / append.  They coincide on dicts, i.e. association lists WITHOUT
   duplicate keys (`DictOK`), which the eviction keeps (`evict_keeps_dict`; a hit leaves the state unchanged).  The value factory is an abstract callee.
   `with self.__lock:` is translated as its body: one thread (the interleavings are C13's own concurrency model).
+  The last section (`gen_Cache_*_atomic`, `cache_ops_atomic_in_source`) ties that model's locked region to the lock discipline of the source.
 -/
 import PyodaGen.C13
 import PyodaModel.Cache.Lru
@@ -219,5 +220,29 @@ theorem gen_Cache_getOrAdd_eq (f : Int → Int) (size : Nat) (keys : List Int) (
     · simp only [bind, Except.bind, get_eq]
       cases hf2 : find s'.dict k <;> rfl
     · rfl
+
+/-! ## The locked region of `_Cache`, tied to the source (builder B10)
+
+`lru_locked_linearizable` (`PyodaProofs/C13Conc.lean`) splits the body of `get_or_add` into its dict / deque operations and
+lets any schedule interleave them — ALL of them between one `acquire` and one `release` of the cache's lock.  The translation
+above reads `with self.__lock:` as its body, so the equations cannot see whether that is so in the source; the lock
+discipline records emitted with the generated definitions (`<op>.lockInfo`, `PyodaGen/LockInfo.lean`) can: every access to
+`__dictionary` / `__key_list` of `get_or_add`, `count`, `clear` lies inside one `with self.__lock:` block and no member of the
+class is used while the lock is held.  (`get_or_add` calls the value factory inside the lock — `callbacksInside`; the model takes
+it as a pure function, a factory that re-enters the same cache would block on the non-re-entrant lock.) -/
+
+theorem gen_Cache_getOrAdd_atomic : Gen.C13.Cache.getOrAdd.lockInfo.Atomic := by decide
+theorem gen_Cache_count_atomic : Gen.C13.Cache.count.lockInfo.Atomic := by decide
+theorem gen_Cache_clear_atomic : Gen.C13.Cache.clear.lockInfo.Atomic := by decide
+
+/-- the only thing `get_or_add` calls while holding the lock is the value factory -/
+theorem gen_Cache_getOrAdd_callbacks : Gen.C13.Cache.getOrAdd.lockInfo.callbacksInside = ["__value_factory"] ∧
+    Gen.C13.Cache.getOrAdd.lockInfo.shared = ["__dictionary", "__key_list"] := by decide
+
+/-- **The locked-region assumption of `lru_locked_linearizable` holds in the source**: each translated operation of `_Cache`
+    that touches the dictionary or the queue does so inside exactly one critical section of the cache's lock. -/
+theorem cache_ops_atomic_in_source :
+    ∀ i ∈ [Gen.C13.Cache.getOrAdd.lockInfo, Gen.C13.Cache.count.lockInfo, Gen.C13.Cache.clear.lockInfo],
+      i.Atomic ∧ i.shared ≠ [] ∧ i.sections = 1 := by decide
 
 end Pyoda.GenAgree.C13
